@@ -161,7 +161,12 @@ func c18Run(c *core.Ctx) {
 	// ---- character recipes over secret glyphs: complete cells, 2 candidates deep
 	strs := []string{"", "a", "ab", "abc", "aab", "bc", "d", "da"}
 	var templates []ref.CharRecipe
-	for _, L := range []int{1, 2, 3} {
+	lens, depth := []int{1, 2, 3}, 2
+	if c.Thorough() {
+		lens, depth = []int{1, 2, 3, 4}, 3
+		strs = append(strs, "abcd", "dd", "cab")
+	}
+	for _, L := range lens {
 		for _, al := range strs {
 			for _, ex := range []string{"", "a", "bc"} {
 				for _, rq := range [][]string{nil, {"a"}, {"ab"}, {"a", "b"}, {"ab", "bc"}, {"d", "d"}, {"abcd", "a", "b"}} {
@@ -185,7 +190,7 @@ func c18Run(c *core.Ctx) {
 			sr := toSpg(r)
 			rp := map[string]interface{}{"recipe": recipeLit(r)}
 			cp.take()
-			st := exploreCell(sr.Generate, CellOpt{DepthCut: 2 * r.Length, Fallback: 2, MaxMenu: 64, MaxLeaves: 20000, Dev: -1}, func(l *Leaf) {
+			st := exploreCell(sr.Generate, CellOpt{DepthCut: depth * r.Length, Fallback: 2, MaxMenu: 64, MaxLeaves: 60000, Dev: -1}, func(l *Leaf) {
 				if l.Out.Aborted {
 					cp.take()
 					return
@@ -235,7 +240,11 @@ func c18Run(c *core.Ctx) {
 	// ---- wordlist recipes over secret glyphs
 	wlT := []WLCase{}
 	for _, ws := range [][]string{{"ab", "cd"}, {"ab", "cd", "abd"}, {"ab", "ab", "cd"}, {"a", "b", "c", "d", "a", "a"}} {
-		for _, L := range []int{1, 2} {
+		wls := []int{1, 2}
+		if c.Thorough() {
+			wls = []int{1, 2, 3}
+		}
+		for _, L := range wls {
 			for _, cpz := range wlSchemes {
 				for _, sp := range []Sep{{Kind: "none"}, {Kind: "char", Char: "d"}, {Kind: "sf", Recipe: &ref.CharRecipe{Length: 1, AllowChars: "cd"}},
 					{Kind: "sf", Recipe: &ref.CharRecipe{Length: 0, AllowChars: "cd"}}, {Kind: "sf", Recipe: &ref.CharRecipe{Length: 2, AllowChars: "c", RequireSets: []string{"d"}}}} {
